@@ -48,6 +48,28 @@ def clQuietOk (i : Nat) : Bool → List Ev → Bool
   | on, .cl j _ _ :: es => (j != i || on) && clQuietOk i on es
   | on, _ :: es => clQuietOk i on es
 
+/-- client `i` as its user sees it: no connection, or the connection over link `l` -/
+inductive CPhase where
+  | off | on (l : Nat) | bad
+deriving DecidableEq, Repr
+
+/-- connected only when there is no connection; receive / send-complete / disconnected only for the
+current connection; disconnected and stop() end it -/
+def cstep (i : Nat) (p : CPhase) (e : Ev) : CPhase :=
+  match e with
+  | .cl j l k =>
+      if j ≠ i then p else
+      match p, k with
+      | .off, .connected => .on l
+      | .on l', .recv _ => if l' = l then .on l' else .bad
+      | .on l', .sendComplete => if l' = l then .on l' else .bad
+      | .on l', .disconnected => if l' = l then .off else .bad
+      | _, _ => .bad
+  | .clStop j => if j = i then (match p with | .bad => .bad | _ => .off) else p
+  | _ => p
+
+def cphase (i : Nat) (h : List Ev) : CPhase := h.foldl (cstep i) .off
+
 /-- a connect attempt is in flight for this connector: exactly one of write event / retry timer -/
 def Cn.attempting (c : Cn) : Bool := c.pend.isSome != c.deadline.isSome
 
